@@ -22,6 +22,7 @@ import (
 	"math/rand"
 	"os"
 	"sort"
+	"strconv"
 	"strings"
 	"sync"
 	"sync/atomic"
@@ -851,6 +852,9 @@ func recordC19(env *Env) {
 	for i := 0; i < nIdx; i++ {
 		recordIdx(env, rng, i, maxlen)
 	}
+	for i := 0; i < env.optInt("queries", env.n/4+4); i++ {
+		recordQry(env, rng, i)
+	}
 	for i := 0; i < nFour; i++ {
 		recordFour(env, rng, i, maxlen)
 	}
@@ -965,8 +969,20 @@ func emitIdx(env *Env, sc string, bits, k int, sparse bool, s string, reuse bool
 	if fw.pan != "" || rv.pan != "" {
 		pan = 1
 	} else if fw.ksz != k {
-		fmt.Fprintf(os.Stderr, "recordIdx: k=%d sparse=%v adjusted to %d\n", k, sparse, fw.ksz)
-		os.Exit(2)
+		// a size whose parity does not fit the mode is adjusted by the index (even -> k+1 in sparse mode, odd -> k-1
+		// otherwise): the event is judged for the size the index says it uses
+		want := k
+		if sparse && k%2 == 0 {
+			want = k + 1
+		} else if !sparse && k%2 == 1 {
+			want = k - 1
+		}
+		if fw.ksz != want || rv.ksz != want {
+			fmt.Fprintf(os.Stderr, "recordIdx: k=%d sparse=%v adjusted to %d\n", k, sparse, fw.ksz)
+			os.Exit(2)
+		}
+		k = want
+		sc += "/adjusted-size"
 	}
 	// compact event: the low k digits of every returned word, the number of non-zero digits found above
 	// them (stray high bits), and KmerAsString (a c g t -> 0..3, '#' -> 4) of a few keys
@@ -1014,6 +1030,123 @@ func emitIdx(env *Env, sc string, bits, k int, sparse bool, s string, reuse bool
 		"keys": keys, "rkeys": rkeys, "stray": stray, "si": si, "strs": strs, "pan": pan, "panmsg": fw.pan + rv.pan})
 }
 
+// observeQuery: an index of references, then Query of a sequence and of its reverse complement (which references
+// they hit), and the same two queries asked again by 8 goroutines at once on the shared index.
+func observeQuery[T obifp.FPUint[T]](k int, sparse bool, refs []string, q, r string) (hit, rhit []int, conc int, pan string) {
+	defer func() {
+		if x := recover(); x != nil {
+			pan = panicText(x)
+		}
+	}()
+	rs := obiseq.BioSequenceSlice{}
+	pos := map[*obiseq.BioSequence]int{}
+	for i, t := range refs {
+		b := obiseq.NewBioSequence("ref"+strconv.Itoa(i), []byte(t), "")
+		rs = append(rs, b)
+		pos[b] = i
+	}
+	km := obikmer.NewKmerMap[T](rs, uint(k), sparse, -1)
+	ask := func(t string) []int {
+		h := make([]int, len(refs))
+		for b := range km.Query(obiseq.NewBioSequence("q", []byte(t), "")) {
+			h[pos[b]] = 1
+		}
+		return h
+	}
+	hit, rhit = ask(q), ask(r)
+	var mu sync.Mutex
+	var wg sync.WaitGroup
+	for g := 0; g < 8; g++ {
+		wg.Add(1)
+		go func(g int) {
+			defer wg.Done()
+			defer func() {
+				if x := recover(); x != nil {
+					mu.Lock()
+					conc++
+					mu.Unlock()
+				}
+			}()
+			for n := 0; n < 40; n++ {
+				t, want := q, hit
+				if (g+n)%2 == 1 {
+					t, want = r, rhit
+				}
+				if fmt.Sprint(ask(t)) != fmt.Sprint(want) {
+					mu.Lock()
+					conc++
+					mu.Unlock()
+				}
+			}
+		}(g)
+	}
+	wg.Wait()
+	return
+}
+
+func recordQry(env *Env, rng *rand.Rand, i int) {
+	bits := []int{64, 128}[i%2]
+	sparse := rng.Intn(2) == 0
+	k := 4 + 2*rng.Intn(8)
+	if sparse {
+		k++
+	}
+	nref := 3 + rng.Intn(6)
+	refs := make([]string, nref)
+	for j := range refs {
+		refs[j] = string(randPlain(rng, 40+rng.Intn(80)))
+	}
+	// the query: a window of a reference (on either strand), a chimera of two references, or an unrelated sequence
+	var q string
+	sc := ""
+	switch rng.Intn(4) {
+	case 0:
+		sc = "window"
+		t := refs[rng.Intn(nref)]
+		a := rng.Intn(len(t) - k)
+		q = t[a : a+k+rng.Intn(len(t)-a-k+1)]
+	case 1:
+		sc = "window-rc"
+		t := revcompInput(refs[rng.Intn(nref)])
+		a := rng.Intn(len(t) - k)
+		q = t[a : a+k+rng.Intn(len(t)-a-k+1)]
+	case 2:
+		sc = "chimera"
+		q = refs[rng.Intn(nref)][:30] + revcompInput(refs[rng.Intn(nref)])[:30]
+	default:
+		sc = "unrelated"
+		q = string(randPlain(rng, 30+rng.Intn(60)))
+	}
+	r := revcompInput(q)
+	var hit, rhit []int
+	var conc int
+	var pan string
+	if bits == 64 {
+		hit, rhit, conc, pan = observeQuery[obifp.Uint64](k, sparse, refs, q, r)
+	} else {
+		hit, rhit, conc, pan = observeQuery[obifp.Uint128](k, sparse, refs, q, r)
+	}
+	if hit == nil {
+		hit = []int{}
+	}
+	if rhit == nil {
+		rhit = []int{}
+	}
+	sp, p := 0, 0
+	if sparse {
+		sp = 1
+	}
+	if pan != "" {
+		p = 1
+	}
+	rr := make([][]string, nref)
+	for j := range refs {
+		rr[j] = c19Chars(refs[j])
+	}
+	env.emit(map[string]any{"kind": "qry", "sc": sc, "bits": bits, "k": k, "sp": sp, "refs": rr, "s": c19Chars(q), "r": c19Chars(r),
+		"hit": hit, "rhit": rhit, "conc": conc, "pan": p, "panmsg": pan})
+}
+
 func recordIdx(env *Env, rng *rand.Rand, i, maxlen int) {
 	bits := []int{64, 128, 256}[i%3]
 	sparse := rng.Intn(2) == 0
@@ -1030,13 +1163,14 @@ func recordIdx(env *Env, rng *rand.Rand, i, maxlen int) {
 	default:
 		k = 2 + rng.Intn(kmax-1)
 	}
-	if sparse && k%2 == 0 {
+	misfit := rng.Intn(5) == 0 && k > 3 && k < kmax // now and then the size is left with the wrong parity
+	if sparse && k%2 == 0 && !misfit {
 		k--
 		if k < 3 {
 			k = 3
 		}
 	}
-	if !sparse && k%2 == 1 {
+	if !sparse && k%2 == 1 && !misfit {
 		k++
 		if k > kmax {
 			k -= 2
